@@ -24,6 +24,7 @@ def check(model, tier):
     payload.r10_1_single_writer(ctx)
     payload.r10_2_no_reset(ctx)
     payload.r10_3_evaluate_once(ctx)
+    payload.r10_4_who_may_attach(ctx)
     run.assume("CPython attribute semantics; code outside the package does not call object.__setattr__ on relations")
     run.assume("single-threaded histories (the property does not quantify over schedules)")
     return run
